@@ -31,6 +31,22 @@ def run(ctx):
     if rc != 0:
         raise RuntimeError("harness failed: " + se[-3000:])
     rows = [l.split("\t") for l in so.split("\n") if l]
+    # corpus: minimised histories of past failures, each in a new process (responses vs fresh server only)
+    corpus_rows = []
+    cdir = os.path.join(vf.VERIF, "corpus", "C07")
+    for fn in sorted(os.listdir(cdir)) if os.path.isdir(cdir) else []:
+        hw = json.load(open(os.path.join(cdir, fn)))["history_wire"]
+        path = os.path.join(vf.CACHE, "c07_hist.json")
+        with open(path, "w") as f:
+            json.dump(hw, f)
+        rc, soc, sec = vf.sh([os.path.join(vf.CACHE, "h_c07"), "-hist", path], cwd=vf.GO, env=vf.go_env(), timeout=120)
+        got = [l.split("\t") for l in soc.split("\n") if l.startswith("R\t")]
+        if rc != 0 or len(got) != len(hw["reqs"]):
+            raise RuntimeError("corpus replay %s failed: %s" % (fn, sec[-1000:]))
+        for g in got:
+            g[1], g[3] = "corpus:" + fn, "corpus"
+        corpus_rows += [["S", "corpus:" + fn, hw["cfg"], "corpus"]] + got
+    rows += corpus_rows
     if ctx.tier == "thorough":
         rc, so2, se = ctx.harness("c07", ["-tier", ctx.tier, "-seed", ctx.seed + 7919, "-conc-only"], race=True)
         race_report = "DATA RACE" in se or "DATA RACE" in so2
@@ -52,7 +68,11 @@ def run(ctx):
     if ok_extract and getattr(ctx, "driver_ok", False):
         lines = list(defs)
         cur = None
-        for r in seq_reqs:
+        for r in rows:
+            if r[0] == "P":
+                lines.append("poolgc")
+            if r[0] != "R" or r[3] != "seq":
+                continue
             if r[1] != cur:
                 cur = r[1]
                 lines.append("newserver")
@@ -61,7 +81,7 @@ def run(ctx):
         outs = ctx.driver("c07", lines)
         witness = outs[-1]
         model = [o for l, o in zip(lines, outs) if l.startswith("req ")]
-        if any(o != "ok" for l, o in zip(lines, outs) if l.startswith(("def ", "pq ", "newserver"))):
+        if any(o != "ok" for l, o in zip(lines, outs) if l.startswith(("def ", "pq ", "newserver", "poolgc"))):
             raise RuntimeError("driver rejected a definition line")
     else:
         witness = None
@@ -143,7 +163,7 @@ def run(ctx):
         rows = v.pop("rows")
         mode, cfg = v.pop("mode"), v.pop("cfg")
         wires = wire_of(rows)
-        if mode == "seq" and v["kind"] in ("response-depends-on-history", "shared-state-corrupted"):
+        if mode in ("seq", "corpus") and v["kind"] in ("response-depends-on-history", "shared-state-corrupted"):
             # shrink: drop earlier requests while the last one still fails (each attempt in a new process)
             ok, rr = last_fails(cfg, wires, v["kind"])
             if ok:
@@ -189,7 +209,8 @@ def run(ctx):
         "input_distribution": dict(branch),
         "histories": len(seqs),
         "sequential_requests": len(seq_reqs),
-        "concurrent_requests": len(reqs) - len(seq_reqs),
+        "concurrent_requests": sum(1 for r in reqs if r[3] == "conc"),
+        "corpus_requests": sum(1 for r in reqs if r[3] == "corpus"),
         "pool_struct_reused": reused,
         "correspondence_divergences": div,
         "oracle_or_cache_failures": spec_fail,
